@@ -104,7 +104,7 @@ kind_to_target = dict(
     conjugate=NotImplemented,
     real="({0}).real()",
     imag="({0}).imag()",
-    complex="std::complex<{typeof_0}>({0}, {1})",
+    complex="{typeof}({0}, {1})",
     hypot=NotImplemented,
     # square="std::square({0})",
     sqrt="std::sqrt({0})",
